@@ -7,6 +7,8 @@ use walkdir::WalkDir;
 
 mod path_error;
 pub use path_error::PathError;
+#[cfg(all(veryl_verif, unix))]
+pub mod verif;
 
 #[derive(Clone, Debug)]
 pub struct PathSet {
@@ -72,13 +74,21 @@ pub fn gather_files_with_extension<T: AsRef<Path>>(
 pub fn lock_dir<T: AsRef<Path>>(path: T) -> Result<File, PathError> {
     let base_dir = cache_path().join(path);
     let lock = base_dir.join("lock");
+    #[cfg(all(veryl_verif, unix))]
+    verif::point("lock_dir:before-lock", &lock);
+    #[cfg(all(veryl_verif, unix))]
+    let lock_path = lock.clone();
     let lock = File::create(lock)?;
     fs4::FileExt::lock(&lock)?;
+    #[cfg(all(veryl_verif, unix))]
+    verif::point("lock_dir:locked", &lock_path);
     Ok(lock)
 }
 
 #[cfg(not(target_family = "wasm"))]
 pub fn unlock_dir(lock: File) -> Result<(), PathError> {
+    #[cfg(all(veryl_verif, unix))]
+    verif::point("unlock_dir:before-unlock", Path::new(""));
     fs4::FileExt::unlock(&lock)?;
     Ok(())
 }
@@ -104,7 +114,17 @@ pub fn atomic_write<P: AsRef<Path>>(path: P, contents: &[u8]) -> std::io::Result
         .parent()
         .filter(|x| !x.as_os_str().is_empty())
         .unwrap_or(Path::new("."));
+    #[cfg(all(veryl_verif, unix))]
+    verif::point("atomic_write:before-temp", path);
     let mut file = tempfile::NamedTempFile::new_in(dir)?;
+    #[cfg(all(veryl_verif, unix))]
+    let contents = {
+        // a crash/pause between two partial writes of the temp file
+        let (head, tail) = contents.split_at(contents.len() / 2);
+        file.write_all(head)?;
+        verif::point("atomic_write:temp-half-written", path);
+        tail
+    };
     file.write_all(contents)?;
     // tempfile creates with 0600; widen to 0644 to match a plain write.
     #[cfg(unix)]
@@ -115,9 +135,16 @@ pub fn atomic_write<P: AsRef<Path>>(path: P, contents: &[u8]) -> std::io::Result
     }
     // On Windows, replacing the target while a reader holds it open transiently
     // fails with a sharing violation (PermissionDenied); retry a few times.
+    #[cfg(all(veryl_verif, unix))]
+    verif::point("atomic_write:before-rename", path);
     let mut attempts = 0;
     loop {
         match file.persist(path) {
+            #[cfg(all(veryl_verif, unix))]
+            Ok(_) => {
+                verif::point("atomic_write:after-rename", path);
+                return Ok(());
+            }
             Ok(_) => return Ok(()),
             Err(e) => {
                 attempts += 1;
